@@ -117,4 +117,63 @@ theorem C04_writes_are_openings (A : Aead) (key aad : Bytes) (hS : A.SoundAt key
         refine ⟨(cf, lastB, pt) :: hs, rest, by simp [hmap], ?_⟩
         rw [rawSerialize, hinp, List.append_assoc, ← hser]
 
+/-! ### non-vacuity (instances shared with C03: `tableAead`, `tblCl`, `tblF`, `toyF`, `smallReads`) -/
+
+/-- hypotheses of `C04_release` are satisfiable (lawful toy AEAD, three chunks) -/
+example (F' : Bytes) (ws : List Bytes) (res : Res) (h : decryptChunks toyPrims.aead (zeros 32) tblAad 8 F' = (ws, res)) :
+    ForgeryIn toyPrims.aead (zeros 32) tblAad 0 tblCl F' ∨
+    (ws <+: tblCl ∧ ws = tblCl.take ws.length ∧ (∀ i (hi : i < ws.length), tblCl[i]? = some ws[i]) ∧
+      (res = .ok → ws = tblCl)) :=
+  C04_release toyPrims.aead toyPrims_lawful.aead (zeros 32) tblAad (by decide) 8 tblCl (by decide) (by decide) F' ws res h
+
+/-- hypotheses of `C04_release_nf` are satisfiable (`tableAead`, for which `NoForgeryFrom` is proved) -/
+example (F' : Bytes) (ws : List Bytes) (res : Res) (h : decryptChunks tableAead (zeros 32) tblAad 8 F' = (ws, res)) :
+    ws <+: tblCl ∧ (res = .ok → ws = tblCl) :=
+  C04_release_nf tableAead (zeros 32) tblAad (tableAead_soundAt _) 8 tblCl (by decide) (by decide)
+    (tableAead_noForgery _) F' ws res h
+
+/-- a proper prefix of whole chunks is what is released when a later record fails -/
+example : decryptChunks tableAead (zeros 32) tblAad 8 (tblF.set 90 0) = ([[1,2],[3]], .auth) := by decide
+
+/-- hypotheses of `C04_release_pass` are satisfiable -/
+example (ws : List Bytes) (res : Res)
+    (h : passDecrypt toyPrims [] ((passEncrypt toyPrims [] (zeros 32) smallReads).1 ++ [0]) = (ws, res)) :
+    ForgeryIn toyPrims.aead (toyPrims.kdf [] (zeros 32)) encPassMagic 0 (fileChunks smallReads)
+      (((passEncrypt toyPrims [] (zeros 32) smallReads).1 ++ [0]).drop 36) ∨
+    (ws <+: fileChunks smallReads ∧ (res = .ok → ws = fileChunks smallReads ∧ ws.flatten = smallReads.flatten)) :=
+  C04_release_pass toyPrims toyPrims_lawful.aead [] (zeros 32) smallReads (by decide) (toy_kdf_length _ _)
+    smallReads_wf smallReads_le _ (by decide) ws res h
+
+/-- hypotheses of `C04_release_key` are satisfiable -/
+example (ws : List Bytes) (res : Res) (snd : Option Bytes)
+    (h : keyDecrypt toyPrims (List.replicate 32 1) (List.replicate 32 1)
+      (keyEncrypt toyPrims (zeros 32) (zeros 32) (List.replicate 32 1) (List.replicate 32 2) (List.replicate 32 2)
+        (List.replicate 32 7) smallReads).1 = (ws, res, snd)) :
+    ∃ hh, ForgeryIn toyPrims.aead (toyPrims.hkdfFile (List.replicate 32 7) hh) [] 0 (fileChunks smallReads)
+      ((keyEncrypt toyPrims (zeros 32) (zeros 32) (List.replicate 32 1) (List.replicate 32 2) (List.replicate 32 2)
+        (List.replicate 32 7) smallReads).1.drop 132) ∨
+    (ws <+: fileChunks smallReads ∧
+      (res = .ok → ws = fileChunks smallReads ∧ ws.flatten = smallReads.flatten ∧ snd = some (zeros 32))) := by
+  obtain ⟨d1, h1, h1'⟩ := (toy_dhAgree (zeros 32) (List.replicate 32 1) (List.replicate 32 2)).es
+  obtain ⟨d2, h2, h2'⟩ := (toy_dhAgree (zeros 32) (List.replicate 32 1) (List.replicate 32 2)).ss
+  have hw := Noise.writeMessage_ok_named toyPrims encPrologue (zeros 32) (zeros 32) (List.replicate 32 1)
+    (List.replicate 32 2) (List.replicate 32 2) (List.replicate 32 7) d1 d2 h1 h2
+  exact ⟨_, C04_release_key toyPrims toyPrims_lawful _ _ _ _ _ _ _ d1 d2 _ _ smallReads
+    (List.length_replicate ..) (List.length_replicate ..) (List.length_replicate ..) h1 h2 h1' h2'
+    smallReads_wf smallReads_le hw _ rfl ws res snd h⟩
+
+/-- hypotheses of `C04_no_write_on_first_failure` are satisfiable: record 0 altered -/
+example : ([] : List Bytes) = [] ∧ Res.auth ≠ .ok :=
+  C04_no_write_on_first_failure tableAead (zeros 32) tblAad 8 (tblF.set 17 0).length 0 (tblF.set 17 0) [] .auth
+    (by decide) (Or.inr (Or.inr (Or.inr (by decide))))
+
+/-- hypotheses of `C04_first_write_opened` are satisfiable -/
+example : tableAead.dec (zeros 32) 0 (tblAad ++ ((tblF.take 16).drop 8).take 4 ++ (tblF.take 16).drop 12)
+    ((tblF.drop 16).take (beVal ((tblF.take 16).drop 12) + 16)) = some [1,2] :=
+  C04_first_write_opened tableAead (zeros 32) tblAad 8 tblF.length 0 tblF [1,2] [[3],[4,5,6]] .ok (by decide)
+
+/-- `C04_writes_are_openings` has no hypothesis beyond the per-key laws, which hold for `tableAead` and for every
+    lawful AEAD at every 32-byte key -/
+example (fuel ctr : Nat) (inp : Bytes) := C04_writes_are_openings tableAead (zeros 32) tblAad (tableAead_soundAt _) 8 fuel ctr inp
+
 end Kestrel
